@@ -192,6 +192,13 @@ theorem C10_to_timestamp_type (scale : Option Nat) :
     to_timestamp is TIMESTAMP WITH TIME ZONE -/
 theorem finding_to_timestamp_float : TsFn.toTimestamp.tzAware = true := rfl
 
+/-- **NUMBER(p) keeps its precision**: only the parameter-less type becomes BIGINT; NUMBER(p) is DECIMAL(p,0) — a
+    value of p+1 digits does not fit (rejected; NULL for TRY_CAST), one of p digits does -/
+theorem C10_number_one_parameter (p : Nat) (hp : 1 ≤ p) :
+    integerPrecision [p] = .decimal p 0 ∧ (integerPrecision [p]).fitsIntDigits p = true ∧
+    (integerPrecision [p]).fitsIntDigits (p + 1) = false ∧ integerPrecision [] = .bigint := by
+  simp [integerPrecision, NumType.fitsIntDigits]
+
 /-! ### DATEADD -/
 
 def C10_dateadd_type_Full : Prop := ∀ u s, dateaddImpl u s = dateaddSpec u s
@@ -366,6 +373,26 @@ theorem C10_context (r : X → Option X) (c : Cx) (e : X) (h : c.quiet r e) :
   | n3l f c b d ih => simp only [Cx.plug, Cx.map]; rw [topDownX_n3 r _ _ _ _ h.1, ih h.2]
   | n3m f a c d ih => simp only [Cx.plug, Cx.map]; rw [topDownX_n3 r _ _ _ _ h.1, ih h.2]
   | n3r f a b c ih => simp only [Cx.plug, Cx.map]; rw [topDownX_n3 r _ _ _ _ h.1, ih h.2]
+
+/-- **… also under a context that is itself rewritten**: an IN-PLACE rule (REGEXP_REPLACE's, which patches the node and
+    returns it) reaches a construct at any depth, with no hypothesis on the context — REGEXP_REPLACE nested in the
+    subject of another REGEXP_REPLACE is rewritten like the outer one.  (For REPLACING rules the hypothesis of
+    `C10_context` is needed: `C10_context_hypothesis_needed`.) -/
+theorem C10_context_in_place (g : Nat → Nat) (c : Cx) (e : X) :
+    inPlaceX g (c.plug e) = (c.inPlace g).plug (inPlaceX g e) := by
+  induction c with
+  | hole => rfl
+  | n1 f c ih => simp only [Cx.plug, Cx.inPlace, inPlaceX, ih]
+  | n2l f c b ih => simp only [Cx.plug, Cx.inPlace, inPlaceX, ih]
+  | n2r f a c ih => simp only [Cx.plug, Cx.inPlace, inPlaceX, ih]
+  | n3l f c b d ih => simp only [Cx.plug, Cx.inPlace, inPlaceX, ih]
+  | n3m f a c d ih => simp only [Cx.plug, Cx.inPlace, inPlaceX, ih]
+  | n3r f a b c ih => simp only [Cx.plug, Cx.inPlace, inPlaceX, ih]
+
+/-- REGEXP_REPLACE (7 ↦ 8) inside REGEXP_REPLACE: in place both are rewritten, as a replacing rule only the outer one -/
+theorem C10_nested_in_place_vs_replacing :
+    inPlaceX (fun f => if f = 7 then 8 else f) (.n1 7 (.n1 7 (.leaf 0))) = .n1 8 (.n1 8 (.leaf 0)) ∧
+    topDownX (fun | .n1 7 a => some (.n1 8 a) | _ => none) (.n1 7 (.n1 7 (.leaf 0))) = .n1 8 (.n1 7 (.leaf 0)) := by decide
 
 /-- a rule that only looks at the node's own function symbol: function 7 with one argument becomes function 8 -/
 private def ruleW : X → Option X
